@@ -957,6 +957,11 @@ class Analyzer(Analysis):
                 if v is not None and v[0] == "duration" and v[1] is not None and ub(v[1], self.iv) <= (1 << 33):
                     o.ok = True
                     o.why = "duration <= 2^33 s"
+                elif len(args) > 1 and args[1].get("o") == "const":
+                    # a named constant (`const REFRESH_INTERVAL: Duration = ..`): the sum does not depend on any input, it
+                    # overflows on every run or on none
+                    o.ok = True
+                    o.why = "compile-time constant duration"
                 else:
                     o.detail = "duration operand is not bounded"
             else:
